@@ -503,7 +503,9 @@ func (r *Run) checkCut(P string) {
 	}
 	for _, c := range r.callsIn(cut, "OperationQueue.Remove") {
 		t := ff.TB.Of(core.CallArgs(c.Common())[1])
-		removeOK = core.MatchTerm("len(getOperationsAtProtocolVersion(OperationQueue.Peek(...)))", t, core.Bind{})
+		// (zero-tolerant: where the prefix travels in a struct that is empty on the peek-error path, the count is
+		// the prefix length or 0, and removing 0 operations removes nothing)
+		removeOK = core.MatchTerm("len(getOperationsAtProtocolVersion(OperationQueue.Peek(...)))", core.StripOrZero(t), core.Bind{})
 	}
 	s := r.succ(cut, core.Ctx{})
 	_ = s
